@@ -710,6 +710,28 @@ pub fn random_project(t: &mut Tape, safe: bool, avoided: &mut u64) -> Proj {
             }
         }
     }
+    // one event emitted from two commands: the first site's payload cannot be typed from the
+    // syntax (a call), the second emits a struct nothing else mentions. Whatever the listener is
+    // typed after, every name the generated files mention has to be declared.
+    if !safe && commands.len() >= 2 && t.pick(4) == 3 && !structs.iter().any(|s: &StructM| s.name == "LateSitePayload") {
+        let i = t.pick(commands.len() - 1);
+        let j = i + 1 + t.pick(commands.len() - 1 - i);
+        structs.push(StructM { name: "LateSitePayload".to_string(), file: commands[j].file, rename_all: None, fields: vec![FieldM { name: "seq".into(), ty: Ty::Prim("u32"), rename: None, skip: false, validate: None }], unit: false, noise: String::new() });
+        for (idx, payload) in [(i, "call".to_string()), (j, "struct:LateSitePayload".to_string())] {
+            commands[idx].emits.push(EmitM { event: "untyped-first-site".into(), payload, to: None });
+            if !commands[idx].params.iter().any(|p| matches!(p, ParamM::Injected { name, .. } | ParamM::Value { name, .. } | ParamM::Channel { name, .. } if name == "app")) {
+                commands[idx].params.insert(0, ParamM::Injected { name: "app".into(), ty: "AppHandle".into() });
+                for e in &mut commands[idx].emits {
+                    if let Some(n) = e.payload.strip_prefix("param:") {
+                        let n: usize = n.parse().unwrap();
+                        e.payload = format!("param:{}", n + 1);
+                    }
+                }
+            }
+        }
+        features.insert("has=event_untyped_first_site".into());
+        features.insert("has=events".into());
+    }
     Proj { n_files, structs, enums, commands, cfg, features, qualify }
 }
 
